@@ -1,7 +1,7 @@
 use itertools::Itertools;
 
 use super::Resolver;
-use crate::ir::decl::{Decl, TableDecl, TableExpr};
+use crate::ir::decl::{Decl, Module, TableDecl, TableExpr};
 use crate::ir::pl::{Lineage, LineageColumn, LineageInput};
 use crate::pr::{Ident, Ty, TyTupleField};
 use crate::semantic::{NS_DEFAULT_DB, NS_INFER};
@@ -150,7 +150,15 @@ impl Resolver<'_> {
         let default_db = self.root_mod.module.get_mut(&default_db_ident).unwrap();
         let default_db = default_db.kind.as_module_mut().unwrap();
 
-        let infer_default = default_db.get(&Ident::from_name(NS_INFER)).unwrap().clone();
+        // a `default_db` module declared by the user has no inference entry: fall back to
+        // the one a fresh database module has
+        let infer_default = match default_db.get(&Ident::from_name(NS_INFER)) {
+            Some(decl) => decl.clone(),
+            None => Module::new_database()
+                .get(&Ident::from_name(NS_INFER))
+                .unwrap()
+                .clone(),
+        };
         let mut infer_default = *infer_default.kind.into_infer().unwrap();
 
         let table_decl = infer_default.as_table_decl_mut().unwrap();
